@@ -48,10 +48,68 @@ def main():
     except MachineryError as ex:
         print(f"MACHINERY-ERROR property={pid}: {ex}")
         return 2
-    except Exception:
+    except Exception as ex:
         traceback.print_exc()
+        site = raised_by_code_under_test(ex)
+        if site is not None:
+            # the package raised on an input chosen by the specification: the behaviour the property talks about is
+            # absent for that input (see DESIGN.md 10.5); exceptions that can come from the environment or from the
+            # harness's own use of the API (wrong keyword, renamed attribute, doubles) stay machinery errors
+            return report_uncaught(pid, tier, ex, site)
         print(f"MACHINERY-ERROR property={pid}: unexpected exception in the harness")
         return 2
+
+
+_ENVIRONMENT_ERRORS = (OSError, MemoryError, TimeoutError, ImportError, RecursionError, MachineryError)
+
+
+def raised_by_code_under_test(ex):
+    """-> "module.function" when the exception was raised inside the wannierberri package (innermost frame that is
+    neither a third-party library nor the harness), None when it must be treated as a failure of the machinery"""
+    if isinstance(ex, _ENVIRONMENT_ERRORS):
+        return None
+    try:
+        import wannierberri
+        pkg = os.path.dirname(os.path.abspath(wannierberri.__file__)) + os.sep
+    except Exception:
+        return None
+    if isinstance(ex, AttributeError) and type(getattr(ex, "obj", None)).__module__.startswith("harness"):
+        return None                      # a double of the harness lacks an attribute the package now uses
+    frames = traceback.extract_tb(ex.__traceback__)
+    if any(os.sep + "ray" + os.sep in f.filename for f in frames):
+        return None                      # the ray runtime (start-up under load, lost workers) is environment
+    for f in reversed(frames):
+        fn = os.path.abspath(f.filename)
+        if fn.startswith(pkg):
+            return os.path.splitext(fn[len(pkg):])[0].replace(os.sep, ".") + "." + f.name
+        if fn.startswith(VERIF + os.sep):
+            return None                  # raised by the harness itself (bad call, renamed private attribute, ...)
+        # anything else (numpy, scipy, stdlib): keep walking outwards to see who called it
+    return None
+
+
+def report_uncaught(pid, tier, ex, site):
+    from .common import EVID, load_known_findings
+    import json
+    key = f"raises:{site}:{type(ex).__name__}"
+    known = {f["key"]: f for f in load_known_findings().get("findings", []) if f.get("property") == pid}
+    if key in known:
+        print(f"KNOWN-FINDING: property={pid} {key}: {known[key].get('what', '')}")
+        print(f"MACHINERY-ERROR property={pid}: the check stopped at a known finding it does not handle itself")
+        return 2
+    rdir = os.path.join(EVID, "replay")
+    os.makedirs(rdir, exist_ok=True)
+    path = os.path.join(rdir, f"{pid}_uncaught.json")
+    with open(path, "w") as f:
+        json.dump({"property": pid, "key": key, "detail": {
+            "error": f"{type(ex).__name__}: {ex}", "tier": tier, "seed": os.environ.get("VERIF_SEED", "0"),
+            "traceback": traceback.format_exception(type(ex), ex, ex.__traceback__)[-12:],
+            "how": f"bin/check {pid} {tier} (deterministic for a given VERIF_SEED): the package raised inside {site} on an input "
+                   "generated from the specification"}}, f, indent=1, default=str)
+    print(f"violation keys: {{{key!r}: 1}}")
+    print(f"VIOLATION property={pid} replay={path}")
+    print(f"  key={key}")
+    return 1
 
 
 if __name__ == "__main__":
